@@ -32,6 +32,7 @@ def corpus():
     out.append({"k": "seq", "n": 1, "d": 32, "steps": ["frac", "float"]})
     out.append({"k": "events", "ev": [[0, [False, 60000, 3]], [192, [False, 120, 0]]], "noise": 0})
     out.append({"k": "events", "ev": [], "noise": 0})
+    out.append({"k": "events", "ev": [[576, [False, 90, 0]], [0, [False, 180, 0]], [576, [False, 1, 0]]], "noise": 0})      # written out of order, repeated beat
     out.append({"k": "evstr", "s": "0.000=60.000,\n4.000=120"})
     out.append({"k": "evstr", "s": " \n "})
     out.append({"k": "evstr", "s": None})
@@ -99,6 +100,10 @@ def gen(rng, i, tier):
     if k == "events":
         n = rng.choice([0, 1, 1, 2, 3, 6, 12])
         beats = sorted(rng.sample(range(0, 48 * 400), n))
+        if rng.random() < 0.3:
+            rng.shuffle(beats)                        # the list is kept as written: order is not the library's business
+        if n and rng.random() < 0.15:
+            beats.append(rng.choice(beats))          # a repeated beat
         return {"k": "events", "ev": [[b, rand_dec(rng)] for b in beats], "noise": rng.randrange(1 << 30) if rng.random() < 0.6 else 0}
     if k == "evstr":
         # textual event lists, partly malformed
